@@ -1978,6 +1978,71 @@ def run(chk: Check) -> None:
                 if res != want:
                     chk.fail("one-second-resolution", f"is_resource_modified says {res} for last_modified {lm_arg!r} and "
                              f"If-Modified-Since {ims!r}", {"last_modified": repr(lm_arg), "if_modified_since": ims})
+    # a naive last_modified is UTC whatever the process time zone is: a slice of the date cases under other zones
+    import time as _time
+    old_tz = os.environ.get("TZ")
+    try:
+        for tzname in ("JST-9", "EST5EDT"):
+            os.environ["TZ"] = tzname
+            _time.tzset()
+            for i in range(150 if quick else 2000):
+                base = micros(T0) + rng.randint(-3, 3) * 10 ** 6
+                lm_us = base + rng.choice([0, 0, 1, 999999])
+                aware = EPOCH + _dt.timedelta(microseconds=lm_us)
+                naive = aware.replace(tzinfo=None)
+                ims, ims_sec = gen_date_header(rng, lm_us // 10 ** 6)
+                if ims_sec == "garbage":
+                    continue
+                how = i % 3
+                try:
+                    if how == 0:
+                        got = shttp.is_resource_modified(None, None, ims, None, None, None, None, naive, True)
+                        ref = shttp.is_resource_modified(None, None, ims, None, None, None, None, aware, True)
+                    elif how == 1:
+                        envd = {"HTTP_IF_MODIFIED_SINCE": ims}
+                        got = whttp.is_resource_modified(envd, None, None, naive)
+                        ref = whttp.is_resource_modified(envd, None, None, aware)
+                    else:
+                        # If-Range carrying the date, with a Range header
+                        got = shttp.is_resource_modified("bytes=0-1", ims, None, None, None, None, None, naive, False)
+                        ref = shttp.is_resource_modified("bytes=0-1", ims, None, None, None, None, None, aware, False)
+                    res = "modified" if got else "unmodified"
+                except Exception as ex:  # noqa: BLE001
+                    got = ref = None
+                    res = "exn:" + type(ex).__name__
+                d = whttp.parse_date(ims)
+                dates = f"{cps(ims)}={micros(d)}" if d is not None else "-"
+                if how == 2:
+                    add(" ".join(["irm", cps("bytes=0-1"), cps(ims), "~", "~", "~", "~", f"D:{lm_us}", "0", dates]), res, "irm")
+                else:
+                    add(" ".join(["irm", "~", "~", cps(ims), "~", "~", "~", f"D:{lm_us}", "1", dates]), res, "irm")
+                chk.case(("irm-tz", tzname, lines[-1]))
+                want = not ((lm_us // 10 ** 6) <= ims_sec)
+                if got is None or got != ref or got != want:
+                    chk.fail("naive-last-modified-local-time",
+                             f"TZ={tzname}: is_resource_modified with the naive last_modified {naive!r} (UTC by contract) and "
+                             f"{'If-Range' if how == 2 else 'If-Modified-Since'} {ims!r} says {res}; the same instant given as an "
+                             f"aware datetime says {'modified' if ref else 'unmodified'}, the property says "
+                             f"{'modified' if want else 'unmodified'}",
+                             {"tz": tzname, "last_modified_naive_utc": naive.isoformat(), "date_header": ims, "call": how})
+                # Response.last_modified = naive, then make_conditional
+                if i % 5 == 0:
+                    from werkzeug.wrappers import Response as _R3
+                    from werkzeug.test import EnvironBuilder as _EB3
+                    rr = _R3(b"abcd")
+                    rr.last_modified = naive
+                    rr.make_conditional(_EB3(headers=[("If-Modified-Since", ims)]).get_environ())
+                    if (rr.status_code == 304) != (not want):
+                        chk.fail("naive-last-modified-local-time",
+                                 f"TZ={tzname}: Response.last_modified = {naive!r}, If-Modified-Since {ims!r} answered {rr.status_code}",
+                                 {"tz": tzname, "last_modified_naive_utc": naive.isoformat(), "date_header": ims, "call": "response"})
+            chk.count(f"naive-datetime-under-TZ={tzname}", 150 if quick else 2000)
+    finally:
+        if old_tz is None:
+            os.environ.pop("TZ", None)
+        else:
+            os.environ["TZ"] = old_tz
+        _time.tzset()
     # _RangeWrapper directly: every chunking of short bodies (exhaustive) + random, ranges also beyond the body
     def rw_case(kind, data, chunks, bs, start, ln):
         if kind == "list":
@@ -2238,6 +2303,25 @@ def replay(rep) -> int:
             it = FileWrapper(open_file(inp["kind"], data), inp["bs"])
         print("observed:", list(_RangeWrapper(it, inp["start"], inp["length"])), "expected bytes:",
               data[inp["start"]:inp["start"] + inp["length"]])
+        return 0
+    if "tz" in inp:
+        import time as _time
+        import werkzeug.sansio.http as shttp
+        old_tz = os.environ.get("TZ")
+        try:
+            os.environ["TZ"] = inp["tz"]
+            _time.tzset()
+            naive = _dt.datetime.fromisoformat(inp["last_modified_naive_utc"])
+            aware = naive.replace(tzinfo=_dt.timezone.utc)
+            for label, lm in (("naive (UTC by contract)", naive), ("aware UTC", aware)):
+                print(f"TZ={inp['tz']} last_modified {label} {lm!r}, If-Modified-Since {inp['date_header']!r}: modified =",
+                      shttp.is_resource_modified(None, None, inp["date_header"], None, None, None, None, lm, True))
+        finally:
+            if old_tz is None:
+                os.environ.pop("TZ", None)
+            else:
+                os.environ["TZ"] = old_tz
+            _time.tzset()
         return 0
     if "method" not in inp:
         import json
